@@ -9,7 +9,7 @@
    arbitrary schedule (list of thread indices); threads: any number of adders
    with any amounts and any number of changers (`good_init`). *)
 From Coq Require Import List ZArith NArith Bool.
-From Tele Require Import Gen.Consts Model.CounterConc Proofs.CounterWord Proofs.CounterInv Proofs.CounterThms.
+From Tele Require Import Gen.Consts Gen.GoFns Model.CounterConc Proofs.CounterWord Proofs.CounterInv Proofs.CounterThms Proofs.GoFnsCounter.
 Import ListNotations.
 Open Scope Z_scope.
 
@@ -82,6 +82,26 @@ Theorem C03_layout : LOCKED = HAVE - 1 /\ XUNIT = 2 * HAVE /\ (MAXEXTRA + 1) * X
   Z.of_N c_stateReaders = LOCKED /\ Z.of_N c_stateExtra = MAXEXTRA * XUNIT.
 Proof. exact layout_facts. Qed.
 Print Assumptions C03_layout.
+
+(* The state-word operations of the model ARE the Go methods: Gen/GoFns.v is
+   regenerated from internal/counter/counter.go on every run by the
+   translator harness/tools/gofns, and for every 64-bit word (and every uint64
+   amount) each translated method equals the model's operation. *)
+Theorem C03_word_ops_are_the_go_code : forall b, 0 <= b < W64 ->
+  go_counterStateBits_readers b = w_readers b /\
+  go_counterStateBits_locked b = w_locked b /\
+  go_counterStateBits_havePtr b = w_have b /\
+  go_counterStateBits_extra b = w_extra b /\
+  go_counterStateBits_incReader b = w_inc_reader b /\
+  go_counterStateBits_decReader b = w_dec_reader b /\
+  go_counterStateBits_setLocked b = w_set_locked b /\
+  go_counterStateBits_clearLocked b = w_clear_locked b /\
+  go_counterStateBits_setHavePtr b = w_set_have b /\
+  go_counterStateBits_clearHavePtr b = w_clear_have b /\
+  go_counterStateBits_clearExtra b = w_clear_extra b /\
+  (forall n, 0 <= n < W64 -> go_counterStateBits_addExtra b n = w_add_extra b n).
+Proof. exact word_ops_are_go. Qed.
+Print Assumptions C03_word_ops_are_the_go_code.
 
 (* REFUTED clause (known finding `use-after-unmap`): "no call faults" is false of
    the faithful model: a reader parked before its cell load while a changer
